@@ -18,6 +18,10 @@ CLAIMED = {
    text="Deductive: Visitor.visit, Visitor.depart (documented relative order of BEFORE/OUTTER/main/AFTER/INNER, pruning delayed until the extensions ran), Visitor.walkabout and Visitor.walk (recursive; ghost event trace) are verified against the documented walk W(n) = Open(n) ++ Body(n) ++ Close(n) for every tree, every assignment of pruning actions (an uninterpreted function of the node) and every list of extensions: balanced and nested enter/leave is the shape of the postcondition.",
    note="Assumed: the main visitor's visit_X records its event and raises exactly the pruning action act(n), depart_X and extension methods record their event and return; get_children is pure and the structure is a tree. Not under contract yet: the ASTBuilder scope stack (push/pop) - covered by the bounded native harness only.",
    ref='6 C19'),
+ 'C15': dict(
+   text="Deductive: _OperatorDelimiter.__init__ is verified against the operator-precedence grammar of the language reference for every child operator, parent operator/kind and operand side (whenever the grammar requires parentheses, they are kept: needs_parens => not discard), using astor's precedence table read from the installed package at run time; _ColorizerState.mark/restore are verified as a backup point (restore returns exactly what it trims, nothing is lost).",
+   note="Not under contract: per-node rendering, line wrapping/truncation (_output, colorize), tuples, everything rendered through astor.to_source, string/bytes escaping - these are decided by the bounded native read-back oracle only (every operator chain of depth three, 45 forms x 21 wrappers, truncation grid). Known finding KF-C15-one-tuple (one-element tuples lose their comma; pinned by the repository's own test).",
+   ref='6 C15'),
  'C16': dict(
    text="Deductive: the line arithmetic and the accounting are verified hop by hop for all inputs: extract_docstring_linenum (= node line + newlines of the stripped whitespace prefix; loop invariant), extract_docstring, setDocstring, Documentable.report (message = description:base+offset, base chosen by section; counted), Field.report, ParseError.linenum/descr, reportErrors (once per object and section, one message per error, 0-based offsets), System.msg (every negative-threshold message counted, `once` messages once) and driver.main (exit status = the statement's formula over the final counters); 'moving the definition down by k lines moves the reported line by k' is a lemma over the spec.",
    note="Assumed: the per-construct line numbers produced inside epytext/docutils/napoleon are inputs; inspect.cleandoc, print/flush, Options.from_args, get_system and make are external (make/get_system only ever increment the violation counter). The end-to-end chain (planted problems at known physical lines, real runs, exit statuses) is exercised by the bounded native harness; it found two genuine off-by-one defects (fixed) and one pinned by the repository's doctest (known finding KF-C16-consolidated-field-line).",
